@@ -29,14 +29,15 @@ CLAIMED = {
              "IS [NOT] NULL over arbitrary operands, every operand direct or wrapped in ExpBase, any depth): C02_text - the model's "
              "writer tree for the composed value is leaf by leaf the token list xtoks; C02_parse_back - whenever the checker accepts "
              "a tree, that token list derives exactly the composed tree in the strict sub-grammar of PostgreSQL's %left/%nonassoc "
-             "table (Pg/Expr.v); C02_gap_witnesses - the shapes the property text names are rejected by the checker and read back "
-             "differently (findings D7, 109 operator/operand site classes, each demonstrated alone on every run). Harness: every "
+             "table (Pg/Expr.v); C02_reassociation - a chain of one and the same operator out of + and *, bracketed in any way, is written "
+             "as the flat chain, which derives a tree with the same operands in the same order (the tolerated difference); "
+             "C02_gap_witnesses - the shapes the property text names are rejected by the checker and read back differently "
+             "(findings D7, 111 operator/operand site classes, each demonstrated as the only failing site of a misread tree). Harness: every "
              "parent kind x operand position x direct/re-wrapped x child kind over all operator methods, spines to depth 3, random "
              "full trees; byte-exact model correspondence; every distinct emitted text (4 option combinations, select list, WHERE) "
              "is lexed and read back with the extracted precedence reader and compared with the composed tree modulo re-association "
              "of + * AND OR chains.",
-        note="Partial: C02_parse_back is at token level (that an operand's bytes lex to one c_expr is evaluated per case, not proved); "
-             "the checker does not cover a same-operator right operand of + / * (tolerated by the property, accepted by the reader); "
+        note="Partial: the theorems are at token level (that an operand's bytes lex to one c_expr is evaluated per case, not proved); "
              "the precedence table and reader are a formalisation of gram.y written by hand. D7 is a recorded finding, not repaired.",
         ref="DESIGN.md §6 C02"),
     "C03": dict(
